@@ -12,6 +12,8 @@ arithmetic of the 30-bit prime field; those are k*f and k*g (mod p) only if
  2 transform the U32Field transform entry points compute, for ALL inputs and every supported length:
              fft(a)[i] = a(r_i), r_i^n = -1, r_i pairwise distinct;  ifft(fft(a)) = a;  and for the small
              lengths directly  ifft(fft(a) .* fft(b)) = a*b mod (X^n + 1, p)    (exact residue identities, as C11)
+ 4 totality  (one clause only) the integer logarithm in babai_reduce_i32's bit-size helper never sees 0 — the big-integer
+             sibling accepts all-zero (F, G), so a panic there would be a disagreement inside the property's domain
  3 wiring    in babai_reduce_i32 the two products use the SAME k (one transform of the rounded quotient) with the
              transforms of the function's own f resp. g, the results are centred with balanced_value and
              subtracted from F resp. G — by labels
@@ -322,8 +324,14 @@ def clause_wiring(R):
     args = []
     for nm, mut in (("f", False), ("g", False), ("F", True), ("G", True)):
         args.append(S.cell(st, nm, c04.ipoly(S, st, nm, i32, -B, B), mut=mut))
+    n_obl0 = len(ctx.obl)
     outs = S.run(br, args, st)
     site = "babai_reduce_i32"
+    # integer-logarithm preconditions met on the way (the bit-size helper): must hold for every input, all-zero (F, G) included —
+    # the big-integer sibling returns Ok there, so a panic here is a disagreement inside the property's domain (defect D7, fixed)
+    ilogs = [o for o in S.obligations_since(n_obl0) if o.kind == "ilog2"]
+    R.check(bool(ilogs) and all(o.ok for o in ilogs), "C17-total", site + " bit-size helper", f"every ilog2 argument is provably positive ({len(ilogs)} site(s)), also for all-zero inputs",
+            f"an ilog2 argument may be zero or negative: {[o.detail for o in ilogs if not o.ok][:2]} — panics on an all-zero (F, G) or (f, g) where babai_reduce_bigint returns Ok", key="total|ilog2")
     if not outs:
         R.violation("C17-wiring", site, "no return found in the abstract run", key="w|run")
         return
